@@ -1,5 +1,6 @@
 import UmModel.Barrier
 import UmProofs.BarrierWin
+import UmProofs.BarrierMap
 /-!
 # C11 — The pre-switch barrier stops source-side execution and loses nothing
 
@@ -313,5 +314,79 @@ example : (runSched (init [(.blocking, true)] []) [.s 0, .s 0, .s 0]).map (fun p
 example : (runSched (init [(.notBlocking, false)] []) [.s 0, .s 0, .s 0, .s 0, .s 0, .s 0]).map
     (fun p => (p.1.sh.running, p.2.map (·.2))) =
   some (0, [.tau, .tau, .tau, .handed 0 false, .tau, .ret .errInner]) := by decide
+
+/-! ## which queue: `BlockingMap` hands every user of an address the same queue
+
+The theorems above are about *one* `TaskBlockingQueue`.  The proxy reaches that queue from two
+sides through `BlockingMap::get_or_create` (client path: `TaskBlockingQueueSenderFactory::create`;
+migration path: `TaskBlockingControllerFactory::create(src_node_address)`), and the map only
+keeps `Weak`s.  Model: `UmModel/BarrierMap.lean`; any history of acquire / drop / drop-all. -/
+
+/-- **Same address ⇔ same queue** for live holders, after any history (including "all holders of
+an address dropped, address used again"): the sender the clients use and the controller the
+migration blocks are the same queue, so `C11_barrier` / `C11_no_loss` apply to that pair; and
+different backends never share a queue. -/
+theorem C11_map_shared_queue (ops : List Map.Op) :
+    ∀ h1 ∈ (Map.run Map.init ops).holders, ∀ h2 ∈ (Map.run Map.init ops).holders,
+      h1.live = true → h2.live = true → (h1.addr = h2.addr ↔ h1.qid = h2.qid) := by
+  have hi := Map.inv_run ops Map.init Map.inv_init
+  intro h1 hm1 h2 hm2 hl1 hl2
+  have e1 := hi.reg h1 hm1 hl1
+  have e2 := hi.reg h2 hm2 hl2
+  constructor
+  · intro ha
+    rw [ha, e2] at e1
+    exact (Option.some.inj e1).symm
+  · intro hq
+    rw [hq] at e1
+    exact hi.inj _ _ _ e1 e2
+
+/-- a new queue is created only when nobody holds a queue of that address any more -/
+theorem C11_map_create_only_when_dead (ops : List Map.Op) (a : Nat)
+    (hc : (Map.getOrCreate (Map.run Map.init ops) a).2.2 = true) :
+    ∀ h ∈ (Map.run Map.init ops).holders, h.live = true → h.addr ≠ a := by
+  have hi := Map.inv_run ops Map.init Map.inv_init
+  intro h hm hl ha
+  have e := hi.reg h hm hl
+  rw [ha] at e
+  simp only [Map.getOrCreate, e] at hc
+  split at hc
+  · cases hc
+  · rename_i hal
+    have hal' : Map.alive (Map.run Map.init ops) h.qid = false := by simpa using hal
+    exact Map.not_alive_spec hal' h hm hl rfl
+
+/-- the behavioural form checked on the implementation: when a live controller of the address
+starts blocking, a command sent through *any* live sender of that address meets a blocked queue. -/
+theorem C11_map_probe_all_queued (ops : List Map.Op) (a ci : Nat) (l : List (Nat × Bool))
+    (hp : Map.probe (Map.run Map.init ops) a = some (ci, l)) : ∀ p ∈ l, p.2 = true := by
+  have hs := C11_map_shared_queue ops
+  simp only [Map.probe] at hp
+  split at hp
+  · cases hp
+  · rename_i c ci' hf
+    simp only [Option.some.injEq, Prod.mk.injEq] at hp
+    obtain ⟨_, rfl⟩ := hp
+    have hc := List.find?_some hf
+    have hcm := List.mem_of_find?_eq_some hf
+    simp only [Bool.and_eq_true, beq_iff_eq] at hc
+    intro p hpm
+    simp only [List.mem_map, List.mem_filter, Bool.and_eq_true, beq_iff_eq] at hpm
+    obtain ⟨x, ⟨hxm, ⟨⟨hxl, hxa⟩, _⟩⟩, rfl⟩ := hpm
+    have m1 : x.1 ∈ (Map.run Map.init ops).holders :=
+      List.mem_of_getElem? (i := x.2) (List.mem_zipIdx_iff_getElem?.1 hxm)
+    have m2 : c ∈ (Map.run Map.init ops).holders :=
+      List.mem_of_getElem? (i := ci') (List.mem_zipIdx_iff_getElem?.1 hcm)
+    have := (hs x.1 m1 c m2 hxl hc.1.1).1 (by rw [hxa, hc.1.2])
+    simp [this]
+
+/-- non-vacuity: use, release everything, use again — the re-created pair shares queue 1 -/
+example : ((Map.run Map.init [.acquire .sender 0, .acquire .ctrl 0, .dropAll 0,
+    .acquire .sender 0, .acquire .ctrl 0, .acquire .sender 1]).holders.map
+      (fun h => (h.addr, h.qid, h.live))) =
+  [(0, 0, false), (0, 0, false), (0, 1, true), (0, 1, true), (1, 2, true)] := by decide
+
+example : Map.probe (Map.run Map.init [.acquire .sender 0, .acquire .ctrl 0, .dropAll 0,
+    .acquire .sender 0, .acquire .ctrl 0]) 0 = some (3, [(2, true)]) := by decide
 
 end Um.Barrier.C11
